@@ -630,6 +630,52 @@ def r08e(ctx, rep, rule="R08e"):
     rep.floor(rule, "integer arms of the arithmetic operations", n, 36)
 
 
+def r08g(ctx, rep, rule="R08g"):
+    facts = ctx["facts"]
+    rep.rule(rule, "an inexact fallback approximates the result, not the operands: in the BigInt / BigInt arm of division (and the "
+             "helpers it calls in number.rs) no float division takes two operands that are each a BigInt::to_f64 conversion. "
+             "Both conversions overflow to infinity for operands beyond 1.8e308, and inf / inf is NaN whatever the quotient "
+             "is — (/ (expt 10 400) (expt 10 399)) must be 10.0, within the error bound C08 allows a fallback.")
+    fn = need(rep, rule, facts, BINOPS["div"])
+    if fn is None:
+        return
+    arms = number_arms(facts, fn)
+    reg = arms.get(("BigInt", "BigInt"))
+    if reg is None:
+        rep.anchor_lost(rule, "BigInt / BigInt arm of division")
+        return
+    bodies = [(fn, reg)]
+    seen = set()
+    rf0 = region_facts(fn, reg)
+    work = [c for c, fa, loc, bb, t in rf0["calls"] if (c or "").startswith("marwood::number::") and c in facts.fns]
+    while work:
+        h = work.pop()
+        if h in seen:
+            continue
+        seen.add(h)
+        hf = facts.fns[h]
+        bodies.append((hf, set(range(len(hf.blocks)))))
+    bad = []
+    for g, r in bodies:
+        for op, aty, loc, bb, st in region_facts(g, r)["bins"]:
+            if op != "Div" or aty != "f64":
+                continue
+            def from_big(o):
+                og = g.origin(o)
+                for _ in range(3):
+                    if og[0] == "call" and (callee(og[1]) or "").endswith(("::unwrap_or", "::unwrap", "::unwrap_or_default")):
+                        og = g.origin(og[1]["args"][0])
+                return og[0] == "call" and "BigInt" in (og[1].get("fnargs") or "") and (og[1].get("fnargs") or "").endswith("::to_f64")
+            if from_big(st["rv"]["a"]) and from_big(st["rv"]["b"]):
+                bad.append((g, loc))
+    key = rule + "|div|BigInt,BigInt"
+    if bad:
+        rep.fail(rule, key, "%s divides two floats that are each the conversion of a bignum operand: for operands beyond the range "
+                 "of a double both are infinite and the quotient is NaN" % bad[0][0].short, [b[1] for b in bad])
+    else:
+        rep.ok(rule, key, "the BigInt / BigInt fallback converts the exact quotient (no division of two converted bignums)", [fn.span])
+
+
 def r08c(ctx, rep):
     facts = ctx["facts"]
     rep.rule("R08c", "derived operations are built from the primitive ones: Number::modulo is expressed through the "
@@ -888,7 +934,7 @@ def r16b(ctx, rep):
         for bb, t in f.calls():
             if callee(t).endswith("from_str_radix"):
                 k += 1
-    rep.floor("R16b", "from_str_radix calls in number.rs", k, 5)
+    rep.floor("R16b", "from_str_radix calls in number.rs", k, 4)
 
 
 def r16c(ctx, rep):
